@@ -777,7 +777,7 @@ func runC09(c *Ctx) {
 		}
 	})
 	close(stop)
-	c09Concurrent(r, cfgs[:len(drv.AllKinds)+2])
+	c09Concurrent(r, cfgs[:len(drv.AllKinds)+3])
 	c09Amplification(r)
 	c09FormFields(r)
 	c09StalledBodies(r)
